@@ -10,8 +10,14 @@ use std::alloc::{alloc, Layout};
 static mut FAIL_MASK: u8 = 0;
 static mut ZCALLS: u8 = 0;
 static mut REFUSED: u8 = 0;
+/// refusals only happen while the function under contract runs (the native replay allocator is
+/// global: the test framework's own allocations must not be refused)
+static mut ARMED: bool = false;
 
 unsafe fn refuse_now() -> bool {
+    if !ARMED {
+        return false;
+    }
     let k = ZCALLS;
     if ZCALLS < 7 {
         ZCALLS += 1;
@@ -81,7 +87,9 @@ fn c_build_context<C: CellType + kani::Arbitrary>() {
     cxt.budget = budget;
     unsafe {
         FAIL_MASK = kani::any();
+        ARMED = true;
         let ops = interp.build_context(cxt);
+        ARMED = false;
         // Reaching this point means the call returned: then the context is real memory.
         assert!(!ops.is_null());
         assert!(REFUSED == 0);
